@@ -41,7 +41,7 @@ class Gram:
         return nl
 
     def productive(self):
-        pr = set(self.tnum)
+        pr = set(self.tnum) | {'error'}      # the reserved terminal, declared by the library itself
         ch = True
         while ch:
             ch = False
@@ -326,7 +326,7 @@ def count_derivations(g, w, big=10 ** 6):
     return mx
 
 
-FAMILIES = ['split', 'shared', 'ops', 'nullable', 'chains', 'stmts', 'deepchains', 'errafter', 'nullprefix', 'nulltail']
+FAMILIES = ['split', 'shared', 'ops', 'nullable', 'chains', 'stmts', 'deepchains', 'errafter', 'nullprefix', 'nulltail', 'blocks']
 
 
 def family_grammar(rng, costs=(0, 5), fam=None):
@@ -490,9 +490,14 @@ def family_grammar(rng, costs=(0, 5), fam=None):
     elif fam == 'nulltail':
         # a nullable tail after a symbol with several spans, behind a prefix that is empty or not:
         # the same dotted rule before the nullable symbol is in one set with two origins
-        rules.append(('S', ['P', 'X'] + rng.choice([[], [], ['e']]), an(), cst(), [0, 1]))
-        rules.append(('P', [], rng.choice([None, an()]), 0, None))
-        rules.append(('P', ['a'], an(), cst(), [0]))
+        if rng.random() < 0.4:
+            # two contexts told apart by what follows: the derivation needs the origin that was added second
+            rules.append(('S', ['X', 'c'], an(), cst(), [0, 1]))
+            rules.append(('S', ['a', 'X', 'd'], an(), cst(), rng.choice([[0, 1, 2], [1]])))
+        else:
+            rules.append(('S', ['P', 'X'] + rng.choice([[], [], ['e']]), an(), cst(), [0, 1]))
+            rules.append(('P', [], rng.choice([None, an()]), 0, None))
+            rules.append(('P', ['a'], an(), cst(), [0]))
         rules.append(('X', ['Y', 'N'] + rng.choice([[], ['M']]), an(), cst(), rng.choice([[0], [0, 1]])))
         rules.append(('Y', ['a'], an(), cst(), [0]))
         rules.append(('Y', ['a', 'a'], an(), cst(), rng.choice([[0, 1], [1]])))
@@ -500,7 +505,7 @@ def family_grammar(rng, costs=(0, 5), fam=None):
         if rng.random() < 0.5:
             rules.append(('N', ['b'], an(), cst(), [0]))
         rules.append(('M', [], None, 0, None))
-        terms = [('a', 97), ('b', 98), ('e', 101)]
+        terms = [('a', 97), ('b', 98), ('e', 101), ('c', 99), ('d', 100)]
     elif fam == 'deepchains':
         # one leaf reached through unit chains of different depth, the alternatives told apart by
         # the terminal that follows: FIRST/FOLLOW and dynamic contexts need several passes,
@@ -528,6 +533,110 @@ def family_grammar(rng, costs=(0, 5), fam=None):
         if rng.random() < 0.4:
             rules = [('L', ['S'], None, 0, [0]), ('L', ['L', 'S'], an(), cst(), [0, 1])] + rules
         terms = [('t', 116), ('u', 117), ('x', 120), ('y', 121)] + [(x, ord(x)) for x in sufs]
+    elif fam == 'blocks':
+        # the same construct several times in one input, so that the same set is followed by the same token (and the
+        # same lookahead) at two places whose origin sets differ: a successor set cached at the first place must not
+        # be re-used at the second one.  Two shapes.
+        pieces, tails = [], [[]]
+        shape = rng.choice(['list', 'twice', 'errblocks', 'errstart'])
+        if shape == 'errblocks':
+            # blocks of statements with an `error' alternative for the block: a recovery rewrites the parsing list, the
+            # statements after it must not be parsed with successor sets saved before it
+            rules.append(('G', ['G', 'K'], an(), cst(), [0, 1]))
+            rules.append(('G', ['K'], None, 0, [0]))
+            rules.append(('K', ['{', 'L', '}'], an(), cst(), [1]))
+            rules.append(('K', ['{', 'error', '}'], an(), cst(), []))
+            rules.append(('L', ['L', 'T'], an(), cst(), [0, 1]))
+            rules.append(('L', ['T'], None, 0, [0]))
+            rules.append(('T', ['s'], an(), cst(), []))
+            rules.append(('T', ['p', 'M'], an(), cst(), [1]))
+            rules.append(('T', ['q', 'N'], an(), cst(), [1]))
+            long_tail = rng.random() < 0.5
+            rules.append(('M', ['A', 'z'] + (['m'] if long_tail else []), an(), cst(), [0]))
+            rules.append(('N', ['A', 'z', 'n'] if long_tail else ['A', 'y'], an(), cst(), [0]))
+            rules.append(('A', ['a', ';'], an(), cst(), []))
+            terms = [(x, ord(x)) for x in ['{', '}', 's', 'p', 'q', 'a', ';', 'z', 'y', 'm', 'n']]
+            okp = ['p', 'a', ';', 'z'] + (['m'] if long_tail else [])
+            okq = ['q', 'a', ';'] + (['z', 'n'] if long_tail else ['y'])
+            stm = [['s'], ['s'], okp, okq, okp[:-1] + [okq[-1]], okq[:-1] + [okp[-1]], okp + [okq[-1]], ['a', ';']]
+            for _ in range(14):
+                blk = ['{']
+                for _ in range(rng.randint(1, 5)):
+                    blk += rng.choice(stm)
+                pieces.append(blk + ['}'])
+        elif shape == 'errstart':
+            # an alternative that begins with `error', used twice in one rule
+            rules.append(('S', ['I', 'w', 'I'], an(), cst(), [0, 2]))
+            rules.append(('S', ['I'], rng.choice([None, an()]), cst(), [0]))
+            rules.append(('I', ['x', 'B', 'y'], an(), cst(), [1]))
+            rules.append(('I', ['error', 'B', 'z'], an(), cst(), [1]))
+            rules.append(('B', ['b', 'c'], rng.choice([None, an()]), cst(), []))
+            if rng.random() < 0.3:
+                rules.append(('B', ['b'], an(), cst(), []))
+            terms = [(x, ord(x)) for x in ['x', 'y', 'z', 'b', 'c', 'w']]
+            pieces = [['x', 'b', 'c', 'y'], ['y'], ['b', 'c', 'y'], ['b', 'c', 'z'], ['w'], ['w', 'x', 'b', 'c', 'y'], ['y', 'b', 'c', 'y']]
+        elif shape == 'list':
+            # a list of blocks; what a block may end with depends on the marker it began with; a competing reading
+            # starts its inner construct one token later
+            k = rng.choice([2, 3, 3])
+            m1, m2 = rng.sample(['u', 'v', 'w'], 2)
+            s1, s2 = 'c', 'd'
+            es = rng.sample(['e', 'f'], rng.choice([1, 2]))
+            if rng.random() < 0.5:
+                rules.append(('S', ['T', 'S'], an(), cst(), [0, 1]))
+                rules.append(('S', ['T'], rng.choice([None, an()]), cst(), [0]))
+            else:
+                rules.append(('S', ['S', 'T'], an(), cst(), [0, 1]))
+                rules.append(('S', ['T'], rng.choice([None, an()]), cst(), [0]))
+            alts = [('T', [m1, 'X', s1], an(), cst(), [1]),
+                    ('T', [m2, 'X', s2, 'E'], an(), cst(), rng.choice([[1, 3], [1]])),
+                    ('T', ['W', 'a', 'Z', s2, 'F'], an(), cst(), rng.choice([[0, 2], [2, 4], [0, 2, 4]]))]
+            if rng.random() < 0.3:
+                alts.append(('T', [m1, 'X', s2, 'E'], an(), cst(), [1]))
+            rng.shuffle(alts)
+            rules += alts
+            rules.append(('X', ['a'] * k, an(), cst(), rng.choice([[], [0]])))
+            rules.append(('Z', ['a'] * (k - 1), an(), cst(), rng.choice([[], [0]])))
+            ws = [('W', [m], an(), cst(), [0]) for m in rng.sample([m1, m2], rng.choice([1, 2, 2]))]
+            rules += ws
+            rules.append(('E', [es[0]], rng.choice([None, an()]), cst(), [0]))
+            for e in rng.sample(['e', 'f'], rng.choice([1, 2])):
+                rules.append(('F', [e], rng.choice([None, an()]), cst(), [0]))
+            terms = [(x, ord(x)) for x in ['a', 'u', 'v', 'w', 'c', 'd', 'e', 'f']]
+            for m in (m1, m2):
+                pieces.append([m] + ['a'] * k + [s1])
+                for e in ('e', 'f'):
+                    pieces.append([m] + ['a'] * k + [s2, e])
+        else:
+            # two or three occurrences of one nonterminal in a rule, each followed by the same separator, which also
+            # ends a construct nested in one of its alternatives
+            n = rng.choice([2, 2, 3])
+            rhs = []
+            for _ in range(n):
+                rhs += ['Z', 'm']
+            rules.append(('S', rhs + ['q'], an(), cst(), perm_tr(len(rhs) + 1)))
+            alts = [('Z', ['a', 't'], an(), cst(), rng.choice([[], [0, 1]])), ('Z', ['a', 'V', 'e'], an(), cst(), [1])]
+            if rng.random() < 0.4:
+                alts.append(('Z', ['a', 'V'], an(), cst(), [1]))
+            rng.shuffle(alts)
+            rules += alts
+            rules.append(('V', ['P', 'm'], rng.choice([None, an()]), cst(), [0]))
+            rules.append(('P', ['t'], rng.choice([None, an()]), cst(), [0]))
+            if rng.random() < 0.3:
+                rules.append(('P', ['t', 't'], an(), cst(), [0]))
+            terms = [(x, ord(x)) for x in ['a', 't', 'm', 'e', 'q']]
+            pieces = [['a', 't', 'm'], ['a', 't', 'm', 'e', 'm'], ['a', 't', 'm', 'm']]
+            tails = [['q'], ['q', 'q'], [], ['e', 'q']]
+        used = {s for r in rules for s in r[1]}
+        gm = Gram([t for t in terms if t[0] in used], rules)
+        gm.pieces = [p_ for p_ in pieces if all(x in gm.tnum for x in p_)]
+        gm.tails = [t_ for t_ in tails if all(x in gm.tnum for x in t_)]
+        gm.nblocks = 0 if 'T' in gm.nnum else sum(1 for x in rules[0][1] if x == 'Z')
+        gm.shape = shape
+        if shape == 'errblocks':
+            gm.stm_ok = [okp, okq]
+            gm.stm_bad = [okp[:-1] + [okq[-1]], okp + [okq[-1]], okq[:-1] + [okp[-1]], okq + [okp[-1]]]
+        return gm
     else:
         rules.append(('S', ['a', 'O'] + rng.choice([[], ['O']]), an(), cst(), perm_tr(2 + 0, 2)))
         rules.append(('O', ['P'], None, 0, [0]))
@@ -541,8 +650,41 @@ def family_grammar(rng, costs=(0, 5), fam=None):
     return Gram(terms, rules)
 
 
-def family_inputs(rng, g, n=6):
+def block_inputs(rng, g, n=6, maxlen=22):
+    """Inputs for the 'blocks' family: two to four of its pieces (whole constructs, some of them wrong for their place)
+    and a tail; one in three gets a random edit."""
+    out = []
+    for _ in range(n * 4):
+        w = []
+        if getattr(g, 'shape', '') == 'errblocks' and rng.random() < 0.5:
+            # a broken block (its sets are replaced by `{ error }': three places), then a block whose statement stands at
+            # the place the same statement had in the broken block (or next to it)
+            j = rng.randint(0, 3)
+            k = j + 3 + rng.choice([-1, 0, 0, 0, 1])
+            pre = [x for _ in range(rng.randint(0, 1)) for x in rng.choice(g.pieces)]
+            w = pre + ['{'] + ['s'] * k + rng.choice(g.stm_bad) + ['}'] + ['{'] + ['s'] * j + rng.choice(g.stm_ok + g.stm_bad) + ['}']
+            if len(w) <= maxlen and w not in out:
+                out.append(w)
+            if len(out) >= n:
+                break
+            continue
+        cnt = g.nblocks if getattr(g, 'nblocks', 0) and rng.random() < 0.6 else rng.randint(2, 4)
+        for _ in range(cnt):
+            w += rng.choice(g.pieces)
+        w += rng.choice(g.tails)
+        if rng.random() < 0.3:
+            w = mutate(rng, g, w, 1)
+        if len(w) <= maxlen and w not in out:
+            out.append(w)
+        if len(out) >= n:
+            break
+    return out
+
+
+def family_inputs(rng, g, n=6, block_maxlen=22):
     """Inputs for a family grammar: random derivations of several lengths."""
+    if getattr(g, 'pieces', None):
+        return block_inputs(rng, g, n, maxlen=block_maxlen)
     out = []
     for _ in range(n * 3):
         w = rand_sentence(rng, g, maxlen=8, depth=rng.choice([3, 5, 8]))
